@@ -176,6 +176,20 @@ def targeted_programs(dev):
             h = gen.header(f"emit/r-{inv}-{rep}", dev, Fraction(1), r.choice([950, 100]), lws, flags={"comp": False, "norm": False, "robot": False})
             h["ops"] = [r_call(r, h["wl"]["maxv"], inv) for _ in range(4)]
             progs.append(h)
+    # multi-dispense reduction: volumes just above and below max_volume / k
+    for M in (950, 200, 1000):
+        lws = [gen.mk_plate("plate", 2, 2, 0, 10, [0, 0, 0, 0])]
+        h = gen.header(f"emit/multidisp-{M}", dev, Fraction(1), M, lws, flags={"comp": False, "norm": False, "robot": False})
+        ops = []
+        for k in (2, 3, 4, 6, 7):
+            for dv in (0, 1, -1):
+                v = M // k + dv
+                ops.append({"op": "emit", "fn": "reagent_distribution",
+                            "args": {"srack": "S", "s1": I(1), "s2": I(8), "drack": "D", "d1": I(1), "d2": I(96), "vol": v * 1000, "md": I(k + 2)}})
+            ops.append({"op": "emit", "fn": "reagent_distribution",
+                        "args": {"srack": "S", "s1": I(1), "s2": I(8), "drack": "D", "d1": I(1), "d2": I(96), "vol": ((M * 100) // k + 10) * 10, "md": I(12)}})
+        h["ops"] = ops
+        progs.append(h)
     # set_diti: at the start, after a break, elsewhere; decontaminate and wash in DiTi mode
     for diti in (False, True):
         lws = [gen.mk_plate("plate", 2, 2, 0, 10, [0, 0, 0, 0])]
